@@ -327,19 +327,27 @@ theorem C09_event_no_early_return (s s' : Once.St) (hr : OReachable s) (t : Nat)
   · simp at h
 
 /-- **Once set, the event releases all future waiters.**  As long as nobody has reset the event,
-    a performed `set` keeps the flag true, and with the flag true no thread can enqueue itself
-    on the condition variable: every later `wait` returns without blocking. -/
+    a performed `set` keeps the flag true, and with the flag true neither the fast-path read nor
+    the read of the loop condition under the lock can return false: every `wait` that starts
+    after the `set` returns without blocking.  (A waiter that read `false` *before* the store and
+    enqueues after it is covered by `C09_event_all_released`.) -/
 theorem C09_event_future_waiters_pass (s : Once.St) (hr : OReachable s) (hnr : s.resets = 0)
-    (hset : 0 < s.sets) : s.flag = true ∧ ∀ t z, Once.step s (.cvEnq t z) = none := by
+    (hset : 0 < s.sets) : s.flag = true ∧
+      ∀ t, Once.step s (.evLoad t false) = none ∧ Once.step s (.evLoadL t false) = none := by
   obtain ⟨n, log, hlog⟩ := hr
   obtain ⟨_, hp⟩ := Once.inv_of_accepted hlog
   have hf := hp.sticky hnr hset
   refine ⟨hf, ?_⟩
-  intro t z
-  simp only [Once.step]
-  split
-  · rename_i hg; rw [hf] at hg; simp at hg
-  · rfl
+  intro t
+  constructor
+  · simp only [Once.step]
+    split
+    · rename_i hg; rw [hf] at hg; simp at hg
+    · rfl
+  · simp only [Once.step]
+    split
+    · rename_i hg; rw [hf] at hg; simp at hg
+    · rfl
 
 /-- **Progress (event and call_once).**  The model can only be stuck in states where every thread
     is between operations, finished, or parked in `event::wait` without a pending wake-up. -/
@@ -357,8 +365,9 @@ theorem C09_event_stuck_only_when_blocked (s : Once.St) (hr : OReachable s) (hs 
     cases hpc : s.pc r <;> simp [hpc, Once.holds] at hh
     case wLocked c =>
       cases hf : s.flag with
-      | false => exact en (.cvEnq r (s.queue.length + 1)) (by simp) (by simp) (by simp [Once.step, hrn, hl, hpc, hf])
-      | true => exact en (.evPass r true) (by simp) (by simp) (by simp [Once.step, hrn, hl, hpc, hf])
+      | false => exact en (.evLoadL r false) (by simp) (by simp) (by simp [Once.step, hrn, hl, hpc, hf])
+      | true => exact en (.evLoadL r true) (by simp) (by simp) (by simp [Once.step, hrn, hl, hpc, hf])
+    case wMustEnq c => exact en (.cvEnq r (s.queue.length + 1)) (by simp) (by simp) (by simp [Once.step, hrn, hl, hpc])
     case enq c => exact en (.slRel r) (by simp) (by simp) (by simp [Once.step, hrn, hl, hpc])
     case wPass c => exact en (.slRel r) (by simp) (by simp) (by simp [Once.step, hrn, hl, hpc])
     case sRel c => exact en (.slRel r) (by simp) (by simp) (by simp [Once.step, hrn, hl, hpc])
@@ -636,18 +645,26 @@ theorem C09_once_all_callers_return (s : Once.St) (hr : OReachable s) (hs : OStu
 
 /-- a waiter blocks, `set` stores true and wakes it through `notify_all` -/
 example : (runLog Once.step (Once.init 2)
-    [.inv 0 .wait, .evLoad 0 false, .slAcq 0, .cvEnq 0 1, .slRel 0, .suspend 0, .inv 1 .set, .stored 1 true,
-     .slAcq 1, .notifyAll 1 [0], .slRel 1, .ret 1 0, .woke 0, .slAcq 0, .cvWoke 0 false, .evPass 0 true,
+    [.inv 0 .wait, .evLoad 0 false, .slAcq 0, .evLoadL 0 false, .cvEnq 0 1, .slRel 0, .suspend 0, .inv 1 .set, .stored 1 true,
+     .slAcq 1, .notifyAll 1 [0], .slRel 1, .ret 1 0, .woke 0, .slAcq 0, .cvWoke 0 false, .evLoadL 0 true,
      .slRel 0, .ret 0 0]).isSome = true := by decide
 
 /-- the store of `set` falls between the waiter's fast-path read and its locked re-check -/
 example : (runLog Once.step (Once.init 2)
-    [.inv 0 .wait, .evLoad 0 false, .inv 1 .set, .stored 1 true, .slAcq 0, .evPass 0 true, .slRel 0, .ret 0 0,
+    [.inv 0 .wait, .evLoad 0 false, .inv 1 .set, .stored 1 true, .slAcq 0, .evLoadL 0 true, .slRel 0, .ret 0 0,
      .slAcq 1, .notifyAll 1 [], .slRel 1, .ret 1 0]).isSome = true := by decide
+
+/-- the store of `set` falls between the waiter's read of the loop condition (false) and its
+    enqueue: the waiter enqueues with the flag already true and is woken by that `set`'s
+    `notify_all`, which needs the lock the waiter still holds -/
+example : (runLog Once.step (Once.init 2)
+    [.inv 0 .wait, .evLoad 0 false, .slAcq 0, .evLoadL 0 false, .inv 1 .set, .stored 1 true, .cvEnq 0 1,
+     .slRel 0, .slAcq 1, .notifyAll 1 [0], .slRel 1, .ret 1 0, .suspend 0, .woke 0, .slAcq 0,
+     .cvWoke 0 false, .evLoadL 0 true, .slRel 0, .ret 0 0]).isSome = true := by decide
 
 /-- a stuck state with a blocked waiter exists (so `C09_event_all_released` is not vacuous) -/
 example : ∃ s, runLog Once.step (Once.init 1)
-      [.inv 0 .wait, .evLoad 0 false, .slAcq 0, .cvEnq 0 1, .slRel 0, .suspend 0] = some s
+      [.inv 0 .wait, .evLoad 0 false, .slAcq 0, .evLoadL 0 false, .cvEnq 0 1, .slRel 0, .suspend 0] = some s
     ∧ OBlocked s 0 .top := by
   refine ⟨_, rfl, ?_⟩
   simp [OBlocked, upd, Once.init, Once.entry]
@@ -656,9 +673,9 @@ example : ∃ s, runLog Once.step (Once.init 1)
     winner's `set`, retries, wins and completes; thread 1 leaves with the exception -/
 def onceExampleLog : List Once.Ev :=
   [.inv 1 (.call true), .onceLoad 1, .onceWon 1, .inv 0 (.call false), .stored 1 false, .onceLoad 0,
-   .onceLost 0 false, .body 1 true, .evLoad 0 false, .slAcq 0, .cvEnq 0 1, .slRel 0, .suspend 0,
+   .onceLost 0 false, .body 1 true, .evLoad 0 false, .slAcq 0, .evLoadL 0 false, .cvEnq 0 1, .slRel 0, .suspend 0,
    .onceStored 1 false, .stored 1 true, .slAcq 1, .notifyAll 1 [0], .slRel 1, .ret 1 2,
-   .woke 0, .slAcq 0, .cvWoke 0 false, .evPass 0 true, .slRel 0, .onceLoad 0, .onceWon 0, .stored 0 false,
+   .woke 0, .slAcq 0, .cvWoke 0 false, .evLoadL 0 true, .slRel 0, .onceLoad 0, .onceWon 0, .stored 0 false,
    .body 0 false, .onceStored 0 true, .stored 0 true, .slAcq 0, .notifyAll 0 [], .slRel 0, .ret 0 0]
 
 example : (runLog Once.step (Once.init 2) onceExampleLog).isSome = true := by decide
